@@ -145,50 +145,85 @@ Example client_hello_extensions_example :
 Proof. vm_compute. reflexivity. Qed.
 
 (* ---------------------------------------------------------------- fragment reassembly *)
+Definition reasm_wf (st : reasm) : Prop := len (r_buf st) <= r_cap st.
+
 Lemma reasm_step_spec : forall st f,
+  reasm_wf st ->
   wp (reasm_step st f)
-     (fun r t a => exists o st', r = Ok (o, st') /\ 0 <= a /\ 0 <= t /\
+     (fun r t a => exists o st', r = Ok (o, st') /\ 0 <= a /\ 0 <= t /\ reasm_wf st' /\
                    a + len (r_buf st') <= 2 * len (f_body f) + 12 + len (r_buf st) /\
                    t <= 2 * len (f_body f) + len (r_buf st) + 3).
 Proof.
-  intros st f. unfold reasm_step. consts.
+  intros st f Hwf. unfold reasm_wf in *. unfold reasm_step. consts.
   set (buf0 := if negb (r_seq st =? f_seq f) || (f_off f =? 0) then [] else r_buf st).
   assert (Hb : 0 <= len buf0 <= len (r_buf st)).
   { unfold buf0. destruct (negb _ || _); lens. }
   clearbody buf0.
+  destruct (f_total f =? len (f_body f)) eqn:E0.
+  { apply wp_ret. eexists _, _. split; [reflexivity|]. repeat split; lens. }
+  destruct (negb (f_off f =? len buf0) || (f_total f <? f_off f + len (f_body f))) eqn:E1.
+  { apply wp_mk. eexists _, _. split; [reflexivity|]. cbn [r_buf r_cap]. repeat split; lens. }
+  apply orb_false_iff in E1 as [E1 E2]. apply negb_false_iff in E1. apply Z.eqb_eq in E1. apply Z.ltb_ge in E2.
   steps.
-  all: eexists _, _; (split; [reflexivity|]); cbn [r_buf].
+  all: eexists _, _; (split; [reflexivity|]); cbn [r_buf r_cap].
   all: repeat split; lens.
 Qed.
 
 (* cumulative: over ANY history of fragments the bytes placed in reassembly buffers (and in re-encoded
-   complete messages) stay within twice the fragment bytes received plus 12 per fragment -- the
-   peer-declared total_length never enters the bound *)
+   complete messages) stay within twice the fragment bytes received plus 12 per fragment, and what is
+   buffered never exceeds the total_length of the message being assembled -- a declared total_length is
+   only ever an upper bound on the buffer, never a size that is allocated *)
 Theorem reasm_fold_alloc : forall fs st,
+  reasm_wf st ->
   wp (reasm_fold st fs)
-     (fun r t a => exists st', r = Ok st' /\ 0 <= a /\
+     (fun r t a => exists st', r = Ok st' /\ 0 <= a /\ reasm_wf st' /\
                    a + len (r_buf st') <= 2 * frags_bytes fs + 12 * len fs + len (r_buf st)).
 Proof.
-  induction fs as [|f rest IH]; intros st; cbn [reasm_fold].
-  - apply wp_ret. exists st. split; [reflexivity|]. change (frags_bytes []) with 0. lens.
+  induction fs as [|f rest IH]; intros st Hwf; cbn [reasm_fold].
+  - apply wp_ret. exists st. split; [reflexivity|]. change (frags_bytes []) with 0. split; [lia|]. split; [exact Hwf|]. lens.
   - change (frags_bytes (f :: rest)) with (len (f_body f) + frags_bytes rest).
-    apply wp_bind. eapply wp_weaken; [apply reasm_step_spec|]. cbv beta.
-    intros r t a (o & st' & -> & Ha & Ht & Hal & Htl). cbv beta iota.
-    eapply wp_weaken; [apply IH|]. cbv beta.
-    intros r' t' a' (st'' & -> & Ha' & Hal'). exists st''. split; [reflexivity|]. lens.
+    apply wp_bind. eapply wp_weaken; [apply reasm_step_spec; exact Hwf|]. cbv beta.
+    intros r t a (o & st' & -> & Ha & Ht & Hwf' & Hal & Htl). cbv beta iota.
+    eapply wp_weaken; [apply IH; exact Hwf'|]. cbv beta.
+    intros r' t' a' (st'' & -> & Ha' & Hwf'' & Hal'). exists st''. split; [reflexivity|]. split; [lia|]. split; [exact Hwf''|]. lens.
 Qed.
 
-Corollary reasm_fold_total : forall fs st, val (reasm_fold st fs) <> Panic /\ val (reasm_fold st fs) <> OutOfFuel.
+Lemma reasm_init_wf : reasm_wf reasm_init.
+Proof. unfold reasm_wf. cbn. unfold len. cbn. lia. Qed.
+
+Corollary reasm_fold_total : forall fs st, reasm_wf st -> val (reasm_fold st fs) <> Panic /\ val (reasm_fold st fs) <> OutOfFuel.
 Proof.
-  intros fs st. pose proof (reasm_fold_alloc fs st) as H. unfold wp in H.
+  intros fs st Hwf. pose proof (reasm_fold_alloc fs st Hwf) as H. unfold wp in H.
   destruct H as (st' & -> & _). split; discriminate.
 Qed.
 
-Corollary reasm_fold_alloc_bound : forall fs st,
+Corollary reasm_fold_alloc_bound : forall fs st, reasm_wf st ->
   allocd (reasm_fold st fs) <= 2 * frags_bytes fs + 12 * len fs + len (r_buf st).
 Proof.
-  intros fs st. pose proof (reasm_fold_alloc fs st) as H. unfold wp in H.
-  destruct H as (st' & _ & Ha & Hb). pose proof (len_nonneg (r_buf st')). lia.
+  intros fs st Hwf. pose proof (reasm_fold_alloc fs st Hwf) as H. unfold wp in H.
+  destruct H as (st' & _ & Ha & _ & Hb). pose proof (len_nonneg (r_buf st')). lia.
+Qed.
+
+(* what is buffered is bounded both by what was received and by the declared total of the message in progress *)
+Corollary reasm_fold_buffer_bound : forall fs st st', reasm_wf st ->
+  val (reasm_fold st fs) = Ok st' ->
+  len (r_buf st') <= r_cap st' /\ len (r_buf st') <= 2 * frags_bytes fs + 12 * len fs + len (r_buf st).
+Proof.
+  intros fs st st' Hwf Hv. pose proof (reasm_fold_alloc fs st Hwf) as H. unfold wp in H.
+  destruct H as (st'' & Hs & Ha & Hw & Hb). rewrite Hv in Hs. injection Hs as <-. split; [exact Hw | lia].
+Qed.
+
+(* an appended fragment never takes the buffer past the total_length it declares *)
+Lemma reasm_step_within_total : forall st f st',
+  val (reasm_step st f) = Ok (None, st') -> r_buf st' <> r_buf st -> r_buf st' <> [] -> len (r_buf st') < f_total f.
+Proof.
+  intros st f st'. unfold reasm_step.
+  destruct (f_total f =? len (f_body f)); [discriminate|].
+  set (buf0 := if negb (r_seq st =? f_seq f) || (f_off f =? 0) then [] else r_buf st).
+  destruct (negb (f_off f =? len buf0) || (f_total f <? f_off f + len (f_body f))) eqn:E1.
+  - cbn. intros [= <-]. cbn [r_buf]. unfold buf0. destruct (negb _ || _); intros; congruence.
+  - unfold bind; cbn. destruct (len (buf0 ++ f_body f) <? f_total f) eqn:E2; cbn; [|discriminate].
+    intros [= <-]. cbn [r_buf]. intros _ _. apply Z.ltb_lt in E2. exact E2.
 Qed.
 
 (* had the buffer been sized from the declared length (`reserve(total_length)` on the first fragment), one
@@ -201,9 +236,10 @@ Lemma reasm_reserving_refuted :
 Proof. exists (mkFrag 16777215 0 0 [1]). split; [reflexivity | vm_compute; reflexivity]. Qed.
 
 Example reasm_example :
-  val (reasm_fold reasm_init [mkFrag 3 0 0 [1]; mkFrag 3 0 1 [2; 3]]) = Ok (mkReasm [] 0)
-  /\ val (reasm_run reasm_init [mkFrag 3 0 0 [1]; mkFrag 3 0 1 [2; 3]]) = Ok (Some [1; 2; 3], mkReasm [] 0, []).
-Proof. vm_compute. split; reflexivity. Qed.
+  val (reasm_fold reasm_init [mkFrag 3 0 0 [1]; mkFrag 3 0 1 [2; 3]]) = Ok (mkReasm [] 0 3)
+  /\ val (reasm_run reasm_init [mkFrag 3 0 0 [1]; mkFrag 3 0 1 [2; 3]]) = Ok (Some [1; 2; 3], mkReasm [] 0 3, [])
+  /\ val (reasm_run reasm_init [mkFrag 3 0 0 [1]; mkFrag 3 0 2 [2; 3]]) = Ok (None, mkReasm [1] 0 3, []).
+Proof. vm_compute. repeat split; reflexivity. Qed.
 
 (* F26: the 16-bit receive counter after 65536 accepted messages *)
 Lemma recv_seq_unchecked_panics : val (recv_seq_bump_unchecked 65535) = Panic.
